@@ -6,7 +6,7 @@ SPEC = {
     "bins": ["c01"],
     "model_targets": ["Pat/C01Check.vo"],
     "proof_targets": ["Pat/MatcherProofs.vo", "Pat/ModifiersProofs.vo", "Pat/MatchListProofs.vo",
-                      "Pat/C01CheckProofs.vo", "Pat/Base64.vo", "Pat/Chain.vo"],
+                      "Pat/C01CheckProofs.vo", "Pat/Base64.vo"],
     "assumptions": [
         "the specification of occurrences (Pat/Sem.v, Pat/Modifiers.v) is written from text_patterns.md, hex_patterns.md, regexps.md, differences.md; "
         "where they are silent it accepts the implementation: the neighbouring character of a wide string for fullword, which of several genuine "
@@ -34,30 +34,106 @@ RULE = ("stream (a), ~20%: random operation sequences on the real MatchList / Pa
         "Non-trivial: at least one reported match; distinct by (pattern source, buffer).")
 
 
+SYMPTOMS = [(1, "panic-or-bytes"), (2, "unsound"), (4, "order"), (8, "missed"), (16, "over-limit"), (32, "model")]
+
+# root-cause hints computed by the harness from the pattern's AST, most specific first
+TAG_ORDER = ["fullword-on-masked-literal", "class-to-masked-byte-unsound", "trailing-dot-repetition",
+             "counted-repetition-of-group-with-wildcard", "jump-nonliteral-variable-jump", "base64wide"]
+
+
 def classify(case):
     if case.get("stream") == "matchlist":
         return "C01:matchlist:" + str(case.get("shape"))
     shape = str(case.get("shape"))
+    sym = case.get("symptoms") or "?"
     rep = re.findall(r"\((\d+), (\d+), (?:None|Some\(\d+\))\)", str(case.get("reported", "")))
     n = case.get("data_len")
     if n is None:
         n = len(case.get("data_hex", "")) // 2
-    past_end = any(int(s) + int(l) > n for s, l in rep)
-    if past_end and "base64wide" in shape:
-        return "C01:scan:base64wide-range-past-end-of-buffer"
-    if past_end:
-        return "C01:scan:range-past-end-of-buffer:" + shape
-    if case.get("masked_literal") and "fullword" in shape:
-        # lib/src/scanner/context.rs handle_atom_match, LiteralWithMask arm
-        return "C01:scan:fullword-on-masked-literal"
-    if case.get("panic"):
-        return "C01:scan:panic:" + shape
-    return "C01:scan:" + shape
+    tags = case.get("tags") or []
+    if any(int(s) + int(l) > n for s, l in rep):
+        return "C01:scan:range-past-end-of-buffer:" + ("base64wide" if "base64wide" in tags else shape)
+    for t in TAG_ORDER[:-1]:
+        if t in tags:
+            return f"C01:scan:{t}"
+    return f"C01:scan:{sym}:{shape}"
+
+
+def diagnose(drv, casedir, fails):
+    """{(shard, idx): 'unsound+missed'} for the S-failing scan cases: one coqc run per shard
+    evaluating C01Check.diagnose on the failing cases only."""
+    out = {}
+    by_shard = {}
+    for (s, i) in fails:
+        by_shard.setdefault(s, []).append(i)
+    for s, idxs in by_shard.items():
+        src = open(os.path.join(casedir, f"cases_{s}.v"), encoding="utf-8").read()
+        pre, rest = src.split("Definition cases := [\n", 1)
+        items = rest.split("\n].\n", 1)[0].split(";\n")
+        text = pre
+        for i in idxs:
+            m = re.match(r"\((\d+)%N, (.*)\)$", items[i].strip(), re.S)
+            text += f"Eval vm_compute in (diagnose ({m.group(2)})).\n"
+        name = f"Diag_{s}.v"
+        with open(os.path.join(casedir, name), "w", encoding="utf-8") as f:
+            f.write(text)
+        rc, o, _ = drv.sh(["coqc", "-noglob", "-Q", drv.COQ, "YV", name], cwd=casedir, timeout=900)
+        vals = re.findall(r"=\s*(\d+)(?:%N)?\s*:\s*N", o.replace("\n", " "))
+        for i, v in zip(idxs, vals):
+            out[(s, i)] = "+".join(nm for bit, nm in SYMPTOMS if int(v) & bit) or "none"
+        for ext in (".v", ".vo", ".vok", ".vos", ".glob"):
+            try: os.remove(os.path.join(casedir, name[:-2] + ext))
+            except OSError: pass
+    return out
+
+
+def c01_k(run, drv, args, name, timeout=3000, max_report=12):
+    """standard_k plus a diagnosis pass that names the failing part of the specification."""
+    import hashlib
+    casedir = os.path.join(drv.CACHE, "cases", "C01")
+    os.makedirs(casedir, exist_ok=True)
+    rc, out, dt = run_harness(drv, "c01", args + ["--out", casedir], timeout=timeout)
+    info = {"broken": [], "violations": []}
+    stats = last_json_line(out)
+    if rc != 0 or stats is None:
+        info["broken"].append(("harness:c01", f"rc={rc}: {out[-1200:]}"))
+        return info
+    info.update({k: stats[k] for k in ("evaluations", "distinct_nontrivial", "samples", "distribution") if k in stats})
+    info["traces_validated_against_impl"] = stats.get("evaluations", 0)
+    res = drv.run_shards(casedir)
+    for e in res["errors"]:
+        info["broken"].append((name, e))
+    sym = diagnose(drv, casedir, res["s_fail"])
+    seen = {}
+    for (s, i) in res["s_fail"]:
+        case = drv.load_case(casedir, s, i)
+        case["symptoms"] = sym.get((s, i))
+        fp = classify(case)
+        seen.setdefault(fp, []).append(case)
+    info["finding_classes"] = {fp: len(cs) for fp, cs in seen.items()}
+    for fp, cs in seen.items():
+        # the smallest case of the class is the replay
+        case = min(cs, key=lambda c: (len(c.get("data_hex", "")), len(c.get("source", ""))))
+        if len(info["violations"]) < max_report:
+            info["violations"].append({"fingerprint": fp,
+                                       "tag": hashlib.sha1((fp + json.dumps(case, sort_keys=True)).encode()).hexdigest()[:10],
+                                       "kind": "specification violated on the implementation's output",
+                                       "cases_in_class": len(cs), "case": case,
+                                       "replay_hint": "python3 check.py replay <this file>"})
+    s_set = set(res["s_fail"])
+    konly = [x for x in res["k_fail"] if x not in s_set]
+    if konly:
+        s, i = konly[0]
+        case = drv.load_case(casedir, s, i)
+        info["broken"].append((name, f"model and implementation disagree on {len(konly)} case(s) where the specification still holds; first: {json.dumps(case)[:1500]}"))
+    info["k_disagreements"] = len(res["k_fail"])
+    info["s_violations"] = len(res["s_fail"])
+    return info
 
 
 def run_k(run, tier, seed, drv):
     n = 700 if tier == "quick" else 24000
-    info = standard_k(run, drv, "C01", "c01", ["--seed", seed, "--n", n], "K_C01_matchlist_and_refscan", classify, max_report=8)
+    info = c01_k(run, drv, ["--seed", seed, "--n", n], "K_C01_matchlist_and_refscan")
     info["rule"] = RULE
     return info
 
